@@ -4,11 +4,14 @@ import Dashu.Model.Cross.Num
 
   ESTIMATE ORACLE (DESIGN §3): `log2_bounds` (f32 estimates) and `digits_ub` are parameters
   (`Oracle`); the theorems of `Props/C14` hold for every oracle satisfying the enclosure
-  hypothesis.  Exact big-integer primitives (`Ord for UBig/IBig`, `shl_digits`, `<<`, `*`,
-  `UBig::pow`) are used at their value (`compare`, `* B^n`, `* 2^n`): they are refined by C01/C05.
-  The bit-length estimates are computed in `i128` by the code (no overflow possible): modelled in `Int`.
-  The code mirrored here is /repo AFTER the C14 fix commits (8a8c152 … d12bb0c); the code before
-  them is kept in `Model/Cross/Pre.lean` only to state what was wrong.
+  hypothesis.  Exact big-integer primitives (`shl_digits`, `<<`, `*`, `UBig::pow`) are used at
+  their value (`* B^n`, `* 2^n`): they are refined by C01/C09.  `Ord for UBig/IBig` is written
+  `compare` here; `Props/C14Link` proves every such `compare` equal to C05's mirrored
+  integer/src/cmp.rs on the word representation (`Model/Cross/IntOrd.lean`, what the driver runs).
+  The bit-length estimates are computed in `i128` by the code and in `Int` here; `Props/C14I128`
+  proves that no i128 operation overflows (two's-complement text = this model).
+  The code mirrored here is /repo AFTER the C14 fix commits (8a8c152 … d12bb0c, ee43486, a11f448);
+  the code before the first seven is kept in `Model/Cross/Pre.lean` only to state what was wrong.
 -/
 namespace Dashu.Model.Cross
 
@@ -154,7 +157,11 @@ def floatReprCmpIbig (o : Oracle) (abs : Bool) (B : Nat) (s e : Int) (r : Int) :
       else
         (if abs then absCmpInt (shlDigits B s e.toNat) r else compare (shlDigits B s e.toNat) r)
 
-/-- `repr_cmp_same_base::<B, ABS>(lhs, rhs, precision)` -/
+/-- `isize::MAX` of the 64-bit target, as a precision bound (`lhs_prec.min(isize::MAX as usize) as isize`) -/
+def isizeMax : Nat := 2 ^ 63 - 1
+
+/-- `repr_cmp_same_base::<B, ABS>(lhs, rhs, precision)` (/repo ee43486: case 4 clamps the precisions to
+    `isize::MAX`; the `saturating_add`s of cases 4/5 are exact sums over the unbounded `Int` exponents) -/
 def reprCmpSameBase (o : Oracle) (abs : Bool) (B : Nat) (ls le rs re : Int)
     (prec : Option (Nat × Nat)) : Ordering :=
   -- case 1
@@ -176,8 +183,8 @@ def reprCmpSameBase (o : Oracle) (abs : Bool) (B : Nat) (ls le rs re : Int)
           match prec with
           | some (lp, rp) =>
             if lp ≠ 0 ∧ rp ≠ 0 then
-              (if le > re + rp then some (sign.app .gt)
-               else if re > le + lp then some (sign.app .lt) else none)
+              (if le > re + ((min rp isizeMax : Nat) : Int) then some (sign.app .gt)
+               else if re > le + ((min lp isizeMax : Nat) : Int) then some (sign.app .lt) else none)
             else none
           | none => none
         match c4 with
